@@ -143,6 +143,33 @@ pub fn run(ctx: &mut Ctx) -> (&'static str, String, bool) {
             accepted.extend(a);
         }
         ctx.part.distinct_extra += 1u64 << 24;
+        // all 2^24 values with a NUL in each of the other three positions (leading / embedded NULs must stay mods)
+        for zero_pos in 0..3usize {
+            let parts: Vec<Part> = (0u32..256)
+                .into_par_iter()
+                .map(|hi| {
+                    let mut p = Part::new();
+                    for lo in 0u32..65536 {
+                        let v = (hi << 16) | lo;
+                        let t = v.to_le_bytes(); // three free bytes in t[0..3]
+                        let mut b = [0u8; 4];
+                        let mut k = 0;
+                        for (i, slot) in b.iter_mut().enumerate() {
+                            if i != zero_pos {
+                                *slot = t[k];
+                                k += 1;
+                            }
+                        }
+                        let _ = check_one(b, &mut p);
+                    }
+                    p
+                })
+                .collect();
+            for p in parts {
+                ctx.merge(p);
+            }
+            ctx.part.distinct_extra += 1u64 << 24;
+        }
         // every alphanumeric triple followed by every non-zero 4th byte (must all be mods)
         let alnum: Vec<u8> = (0u8..=255).filter(|c| c.is_ascii_alphanumeric()).collect();
         let parts: Vec<Part> = alnum
@@ -216,7 +243,7 @@ pub fn run(ctx: &mut Ctx) -> (&'static str, String, bool) {
         if exhaustive {
             "all 2^32 four-byte values enumerated; each is a distinct case; non-trivial = every value (each exercises classify/decode/re-encode)".into()
         } else {
-            "all 2^24 values with NUL 4th byte (contains all built-in shapes) + all alnum triples x non-zero 4th byte + 2e7 random values; distinct = enumerated values (random draws counted once each)".into()
+            "all 2^24 values with NUL 4th byte (contains all built-in shapes) + all 2^24 values with a NUL in each other position + all alnum triples x non-zero 4th byte + 2e7 random values; distinct = enumerated values (random draws counted once each)".into()
         },
         exhaustive,
     )
